@@ -6,17 +6,29 @@ MINE = {"referenced-object-removed", "store-state:object-bytes-changed", "model:
         "bookkeeping-not-exact", "store-state:unterminated-line", "store-state:dup-line", "store-state:foreign-line"}
 
 
+# many (here: long) pids on one object: its reference list is longer than any buffer (> 8 KiB, > 2 blocks)
+LONG = "p" * 4999
+LONG_ARGS = dict(pids=[LONG + "q", LONG, "b"], contents=[C_ONE, C_MULTI], formats=[None], sym_dirs=False)
+
+
+def long_menu(w):
+    return object_menu(w, with_invalid=False, with_reads=True)
+
+
 def main(tier, replay_payload=None):
     w_args = universe(tier)
     menu_fn = full_menu
+    parts = dict(main=(w_args, menu_fn), long=(LONG_ARGS, long_menu))
     if replay_payload is not None:
-        return make_replayer(w_args, menu_fn)(replay_payload)
+        return make_multi_replayer(parts)(replay_payload)
     run = report.Run("C04", tier, technique="pathsym inductive step; C04 as one z3 formula over all cids and pids")
-    run.replayer = make_replayer(w_args, menu_fn)
+    run.replayer = make_multi_replayer(parts)
     res = step.explore_steps(w_args, menu_fn)
     collect(run, res, MINE, w_args, menu_fn)
+    collect(run, step.explore_steps(LONG_ARGS, long_menu), MINE, LONG_ARGS, long_menu, part="long")
     run.functions = loader.function_lines(loader.load(), API_FUNCS)
     run.bounds = dict(pids=w_args["pids"], contents=[len(c) for c in w_args["contents"]], formats=w_args["formats"],
+                      long_reference_list="two 5000-character pids and a short one on one object (list > 8 KiB)",
                       calls=res[0][2], state="arbitrary Inv state, several pids may share one content")
     run.explanation = ("For every Inv state and every call (all nine methods, rejected calls and calls with wrong "
                        "validation data included) z3 proves  forall cid: (exists pid: bind'[pid]=cid) and obj[cid] => "
